@@ -222,7 +222,7 @@ def load_rest():
 
 
 REST = load_rest() if OUT else None
-SENDERS = ["_GetThing", "_PutThing", "_PostThing", "_PatchThing", "_DeleteThing", "_TwoVars", "_PurgeThings"]
+SENDERS = ["_GetThing", "_PutThing", "_PostThing", "_PatchThing", "_DeleteThing", "_TwoVars", "_PurgeThings", "_WatchThings"]
 VERBS = ["get", "put", "post", "patch", "delete"]
 
 
@@ -242,10 +242,10 @@ class _Session:
 
 def send(which: int, verb: int, with_query: bool) -> bool:
     """
-    pre: 0 <= which <= 6 and 0 <= verb <= 4
+    pre: 0 <= which <= 7 and 0 <= verb <= 4
     post: _
     """
-    which, verb, with_query = conc(which, 0, 6), conc(verb, 0, 4), bool(with_query)
+    which, verb, with_query = conc(which, 0, 7), conc(verb, 0, 4), bool(with_query)
     with untraced():
         fn, params = REST[SENDERS[which]]
         sess = _Session()
